@@ -296,4 +296,157 @@ theorem parseQueryText_printed (ps : List Printed) (hwf : ∀ p ∈ ps, p.WF) (t
       obtain ⟨p, hp, lead, hl, hz2, hz1⟩ := itemsOf_mem true ps z hz
       rw [hz2]; exact ⟨hz1, p.spaced lead hl (hwf p hp)⟩
 
+/-! ## a printed query contains no carriage return -/
+
+/-- No carriage return. -/
+def NoCR (l : Str) : Prop := ∀ c ∈ l, c ≠ '\r'
+
+theorem noCR_nil : NoCR [] := by intro c hc; cases hc
+
+theorem NoCR.append {a b : Str} (ha : NoCR a) (hb : NoCR b) : NoCR (a ++ b) := by
+  intro c hc
+  rcases List.mem_append.mp hc with h | h
+  · exact ha c h
+  · exact hb c h
+
+theorem noCR_esc (name : Str) (hex : Expressible name) : NoCR (name.flatMap (esc '"')) := by
+  intro c hc
+  obtain ⟨x, hx, hcx⟩ := List.mem_flatMap.mp hc
+  have hxr := (hex x hx).2
+  unfold esc at hcx
+  split at hcx
+  · simp at hcx; rcases hcx with rfl | rfl <;> decide
+  · split at hcx
+    · simp at hcx; rcases hcx with rfl | rfl <;> decide
+    · split at hcx
+      · simp at hcx; rcases hcx with rfl | rfl <;> decide
+      · simp at hcx; rw [hcx]; exact hxr
+
+theorem noCR_qi (name : Str) (hex : Expressible name) : NoCR (qi name) := by
+  unfold qi
+  rw [C06.quoteIdent_single]
+  split
+  · intro c hc
+    simp only [List.mem_cons, List.mem_append, List.not_mem_nil, or_false] at hc
+    rcases hc with rfl | h | rfl
+    · decide
+    · exact noCR_esc name hex c h
+    · decide
+  · exact noCR_esc name hex
+
+theorem noCR_kw (t : Token) (ht : t.isKw = true) : NoCR t.str := by
+  unfold Gen.Token.isKw at ht
+  simp only [Bool.and_eq_true] at ht
+  intro c hc
+  have hic : isIdentChar c = true := by
+    cases hstr : t.str with
+    | nil => rw [hstr] at hc; cases hc
+    | cons c0 tl =>
+      rw [hstr] at ht hc
+      have h2 := ht.2
+      simp only [Bool.and_eq_true, List.all_eq_true] at h2
+      rcases List.mem_cons.mp hc with rfl | h
+      · exact (isIdentFirstChar_facts h2.1).2.2.1
+      · exact h2.2 c h
+  intro e; subst e; revert hic; decide
+
+theorem noCR_gap_blank : NoCR (gapText [.ws ' ']) := by
+  intro c hc
+  simp [gapText, GapItem.text] at hc
+  subst hc; decide
+
+theorem noCR_restKs (ts : List Token) (h : ∀ t ∈ ts, t.isKw = true) : NoCR (ts.flatMap fun t => ' ' :: t.str) := by
+  intro c hc
+  obtain ⟨t, ht, hct⟩ := List.mem_flatMap.mp hc
+  rcases List.mem_cons.mp hct with rfl | h'
+  · decide
+  · exact noCR_kw t (h t ht) c h'
+
+theorem noCR_kwLine (toks : List Token) (h : ∀ t ∈ toks, t.isKw = true) : NoCR (kwLine toks) := by
+  cases toks with
+  | nil => intro c hc; cases hc
+  | cons t ts =>
+    exact (noCR_kw t (h t (by simp))).append (noCR_restKs ts (fun t ht => h t (by simp [ht])))
+
+theorem noCR_digits (n : Nat) : NoCR (natDigits n) := by
+  intro c hc e
+  have := natDigits_all_digits n c hc
+  subst e
+  revert this; decide
+
+/-- The printed form of a well-formed statement of these families contains no carriage return. -/
+theorem Printed.noCR (p : Printed) (h : p.WF) : NoCR p.stmt.print := by
+  have hr := RenderPrinted.print_is_render [] p
+  rw [gapText_nil, List.nil_append] at hr
+  rw [← hr]
+  have hok := p.ok [] h
+  obtain ⟨hkw, _, _⟩ := gen_familyPaths _ hok.path
+  have hcons : ∃ t ts, (p.spelled []).toks = t :: ts := by
+    have := gen_familyPaths_head _ hok.path
+    cases ht : (p.spelled []).toks with
+    | nil => rw [ht] at this; cases this
+    | cons t ts => exact ⟨t, ts, rfl⟩
+  obtain ⟨t, ts, htoks⟩ := hcons
+  have hline := noCR_kwLine _ hkw
+  cases p with
+  | zeroArg e he =>
+    have e1 : e.1 = t :: ts := htoks
+    have := render_printKs [] t ts []
+    rw [← e1] at this
+    show NoCR (render (kwPieces e.1 (printKs [] e.1) ++ []))
+    rw [this]
+    exact (noCR_nil : NoCR (gapText [])).append (hline.append (noCR_nil : NoCR (render [])))
+  | singleName e he name =>
+    have e1 : e.1 = t :: ts := htoks
+    have := render_printKs [] t ts [([.ws ' '], .name (printSp name) name)]
+    rw [← e1] at this
+    show NoCR (render (kwPieces e.1 (printKs [] e.1) ++ [([.ws ' '], .name (printSp name) name)]))
+    rw [this]
+    refine (noCR_nil : NoCR (gapText [])).append (hline.append ?_)
+    simp only [render, Piece.text, spellName_printSp, List.append_nil]
+    exact noCR_gap_blank.append (noCR_qi name h)
+  | nameOnDb e he name db =>
+    have e1 : e.1 = t :: ts := htoks
+    have := render_printKs [] t ts (nameOnDbPieces [.ws ' '] (printSp name) [.ws ' '] Token.ON.str [.ws ' '] (printSp db) name db)
+    rw [← e1] at this
+    show NoCR (render (kwPieces e.1 (printKs [] e.1) ++
+      nameOnDbPieces [.ws ' '] (printSp name) [.ws ' '] Token.ON.str [.ws ' '] (printSp db) name db))
+    rw [this]
+    refine (noCR_nil : NoCR (gapText [])).append (hline.append ?_)
+    simp only [nameOnDbPieces, render, Piece.text, spellName_printSp, List.append_nil]
+    exact noCR_gap_blank.append ((noCR_qi name h.1).append (noCR_gap_blank.append
+      ((noCR_kw .ON (by decide +kernel)).append (noCR_gap_blank.append (noCR_qi db h.2)))))
+  | dropShard id =>
+    have := render_printKs [] .DROP [.SHARD] [([.ws ' '], .int 0 id)]
+    show NoCR (render (kwPieces [.DROP, .SHARD] (printKs [] [.DROP, .SHARD]) ++ [([.ws ' '], .int 0 id)]))
+    rw [this]
+    refine (noCR_nil : NoCR (gapText [])).append (hline.append ?_)
+    simp only [render, Piece.text, zeroPad, List.replicate, List.nil_append, List.append_nil]
+    exact noCR_gap_blank.append (noCR_digits id)
+
+theorem noCR_printStatements (ps : List Printed) (hwf : ∀ p ∈ ps, p.WF) :
+    NoCR (printStatements (ps.map Printed.stmt)) := by
+  unfold printStatements
+  cases ps with
+  | nil => intro c hc; cases hc
+  | cons p ps =>
+    rw [List.map_cons, List.map_cons, joinWith_cons]
+    refine (p.noCR (hwf p (by simp))).append ?_
+    intro c hc
+    obtain ⟨x, hx, hcx⟩ := List.mem_flatMap.mp hc
+    obtain ⟨st, hst, rfl⟩ := List.mem_map.mp hx
+    obtain ⟨q, hq, rfl⟩ := List.mem_map.mp hst
+    rcases List.mem_append.mp hcx with h | h
+    · have : ∀ c ∈ tx ";\n", c ≠ '\r' := by decide +kernel
+      exact this c h
+    · exact q.noCR (hwf q (by simp [hq])) c h
+
+/-- **`ParseQuery(Statements.String())`** for well-formed statements of these families. -/
+theorem parseQueryText_printed_text (ps : List Printed) (hwf : ∀ p ∈ ps, p.WF) (params : List (Str × BoundValue))
+    (tbl : List (Char × Char)) :
+    parseQueryText (printStatements (ps.map Printed.stmt)) params tbl = .ok (ps.map Printed.stmt) := by
+  refine parseQueryText_printed ps hwf _ params tbl ?_
+  have := foldCR_append_of_no_cr (printStatements (ps.map Printed.stmt)) [] (noCR_printStatements ps hwf)
+  simpa [foldCR] using this
+
 end InfluxQL.RenderPrinted
